@@ -1,3 +1,4 @@
+import PysphVerif.Model.PeriodicGhosts
 import PysphVerif.Driver.Common
 import PysphVerif.Gen.C09Equations
 import PysphVerif.Model.NbrCacheHist
@@ -25,6 +26,11 @@ Line protocol for C09 (everything at `Float`, doubles as bit patterns):
   search's lists in CSR form (`off<r>`: `np+1` offsets into `nb<r>`) and the
   operations `ops<r>` (`d ≥ 0`: `get_neighbors(d)`, `-1`: `find_all_neighbors`).
   Answers `ok` and the lists handed out: rounds separated by `|`, lists by `;`.
+* `ghosts box=<xmin,xmax,ymin,ymax,zmin,zmax> per=<px,py,pz> par=<n_layers,radius_scale>
+  hmax=<h.maximum of every array> x=<fl> y=<fl> z=<fl>` runs
+  `PeriodicGhosts.ghostsOfArray` at Float for one array (real particle `i` at
+  `x[i], y[i], z[i]`): answers `ok <ids> <x,y,z of every image, flat>` in the
+  order of `_create_ghosts_periodic`.
 Unknown or malformed input answers `bad-op`.
 -/
 namespace PysphVerif.Driver.C09
@@ -108,6 +114,23 @@ def cacheHist (kv : List (String × String)) : String :=
     | none => "bad-op"
   | _, _, _ => "bad-op"
 
+def mkPts : Nat → List Float → List Float → List Float → List (PeriodicGhosts.Pt Float)
+  | i, x :: xs, y :: ys, z :: zs => ⟨i, x, y, z⟩ :: mkPts (i + 1) xs ys zs
+  | _, _, _, _ => []
+
+def ghostsOp (kv : List (String × String)) : String :=
+  match fl kv "box", (lookup kv "per") >>= parseList? parseBool?, fl kv "par", fl kv "hmax",
+        fl kv "x", fl kv "y", fl kv "z" with
+  | some [x0, x1, y0, y1, z0, z1], some [px, py, pz], some [nl, k], some hm,
+    some xs, some ys, some zs =>
+    if xs.length ≠ ys.length ∨ xs.length ≠ zs.length ∨ hm.isEmpty then "bad-op"
+    else
+      let g := PeriodicGhosts.ghostsOfArray ⟨x0, x1, y0, y1, z0, z1, px, py, pz⟩ nl k
+                 (-1.0) 1e-6 1.0 hm (mkPts 0 xs ys zs)
+      "ok " ++ showList toString (g.map (·.id)) ++ " " ++
+        showList showFloatBits (g.flatMap (fun p => [p.x, p.y, p.z]))
+  | _, _, _, _, _, _, _ => "bad-op"
+
 def handle (line : String) : String :=
   match tokens line with
   | [] => "bad-op"
@@ -133,6 +156,7 @@ def handle (line : String) : String :=
       | some a, some b, some k => showOut (runPre floatOps k nan a b)
       | _, _, _ => "bad-op"
     else if cmd = "cachehist" then cacheHist kv
+    else if cmd = "ghosts" then ghostsOp kv
     else "bad-op"
 
 end PysphVerif.Driver.C09
